@@ -494,7 +494,7 @@ void setup_fstack_args(char *argspec, char *retspec, struct uftrace_data *handle
 	walk_sessions(&handle->sessions, build_ret_spec, setting);
 
 	/* old data does not have separated retspec */
-	if (argspec && strstr(argspec, "retval")) {
+	if (argspec && retspec == NULL && strstr(argspec, "retval")) {
 		setting->info_str = argspec;
 		walk_sessions(&handle->sessions, build_ret_spec, setting);
 	}
